@@ -232,7 +232,9 @@ pub fn explore_range(check: &dyn Check, verif_seed: u64, tier: Tier, lo: u64, n:
         for w in 0..workers {
             let (next, stop_after, slots, results, done) = (&next, &stop_after, &slots, &results, &done);
             std::thread::Builder::new()
-                .stack_size(64 << 20)
+                // the stack a main thread gets by default on Linux: a recursion that overflows it in a
+                // user's program overflows it here
+                .stack_size(8 << 20)
                 .spawn_scoped(sc, move || {
                     let mut stats = Stats::default();
                     let mut viols = Vec::new();
